@@ -113,8 +113,11 @@ func VerifGradeGlue() {
 	prevWinners := []string{"aa", "bb"}
 	if hasPrev {
 		data, _ := json.Marshal(prevWinners)
+		// the last graded block is the parent block - or an older one (directory blocks without an
+		// OPR entry block in between leave no row)
+		prevAt := height - 1 - uint32(vrt.Choose("blocksWithoutOPRsInBetween", 2))
 		if _, err := db.Exec("INSERT INTO pn_grade (height, keymr, prevkeymr, eb_seq, shorthashes, version, cutoff, count) VALUES ($1, $2, $3, $4, $5, $6, $7, $8)",
-			height-1, []byte{1}, []byte{2}, 1, data, 1, 50, 2); err != nil {
+			prevAt, []byte{1}, []byte{2}, 1, data, 1, 50, 2); err != nil {
 			panic(err)
 		}
 	}
